@@ -395,10 +395,13 @@ func verifH_C09_walk() {
 // untyped map target).
 //
 //verif:unwind 40
-func verifH_C09_walk_rt() {
+func verifH_C09_walk_rt() { verifWalkRTBody() }
+
+// verifWalkRTBody is the body shared by C09_walk_rt and C01_decode_args (see there).
+func verifWalkRTBody() {
 	b1, b2 := verifSymBinary(2), verifSymBinary(2)
 	o1, o2 := append([]byte(nil), b1...), append([]byte(nil), b2...)
-	variant := verifChoose(0, 2)
+	variant := verifChoose(0, 3)
 	typed := variant == 0
 	var held any
 	switch variant {
@@ -408,6 +411,8 @@ func verifH_C09_walk_rt() {
 		held = map[string]any{"k": b1}
 	case 2:
 		held = map[string]Binary{"k": b1}
+	case 3:
+		held = []Binary{b1, b2}
 	}
 	id := verifAnyUint64()
 	verifAssume(id < 100)
@@ -435,6 +440,8 @@ func verifH_C09_walk_rt() {
 			*t = map[string]any{"k": map[string]any{"_placeholder": true, "num": float64(0)}}
 		case *map[string]Binary:
 			*t = map[string]Binary{"k": Binary(verifPlaceholderText(0))}
+		case *[]Binary:
+			*t = []Binary{Binary(verifPlaceholderText(0)), Binary(verifPlaceholderText(1))}
 		}
 	}}
 	dec := &Parser{json: dj}
@@ -469,6 +476,20 @@ func verifH_C09_walk_rt() {
 			return
 		}
 		verifAssert(verifEqBytes(got.A, o1) && verifEqBytes(got.B, o2) && got.S == "s", "every binary attachment byte-identical and in its place")
+	} else if variant == 3 {
+		verifAssert(gh.Attachments == 2, "attachment count round-trips")
+		var sl []Binary
+		vals, err := gdecode(reflect.TypeOf(&sl))
+		verifAssert(err == nil && len(vals) == 1, "decode into the []Binary target succeeds")
+		if err != nil || len(vals) != 1 {
+			return
+		}
+		got, ok := vals[0].Interface().(*[]Binary)
+		verifAssert(ok && got != nil && len(*got) == 2, "the decoded value has the requested type and length")
+		if !ok || got == nil || len(*got) != 2 {
+			return
+		}
+		verifAssert(verifEqBytes((*got)[0], o1) && verifEqBytes((*got)[1], o2), "every element of a slice of Binary gets its own attachment back")
 	} else if variant == 2 {
 		verifAssert(gh.Attachments == 1, "attachment count round-trips")
 		var m map[string]Binary
